@@ -52,6 +52,7 @@ reg("C11", "h_c10")
 reg("C13", "h_c13")
 reg("C03", "h_c03")
 reg("C03", "h_c03_deep", "asan")
+reg("C03", "h_c03_cxx", "asan")
 reg("C14", "h_c14", "asan")
 reg("C20", "h_c20")
 
